@@ -44,10 +44,16 @@ ASSUMES = [
 ]
 
 CTRL = ["CNOT", "CSIGN"]
-SWAPK = ["SWAP", "ISWAP", "SQRTISWAP", "SQRTSWAP", "BERKELEY", "SWAPalpha"]
+# "SWAPALPHA" (default name of an instance of class SWAPALPHA) and "iSWAP" (GATE_CLASS_MAP alias) are the SWAPalpha /
+# ISWAP gates under their other library names: routed like them since fixes/C07-alias-names
+SWAPK = ["SWAP", "ISWAP", "SQRTISWAP", "SQRTSWAP", "BERKELEY", "SWAPalpha", "SWAPALPHA", "iSWAP"]
 HANDLED = CTRL + SWAPK
 SYMMETRIC = set(SWAPK) | {"CSIGN"}   # CSIGN = CZ is symmetric in control/target as an operator
 KINDS = ["CNOT", "CSIGN", "SWAP", "ISWAP", "SQRTISWAP", "SQRTSWAP", "BERKELEY", "SWAPalpha"]
+# other names under which the library itself creates two of the handled gates (GATE_CLASS_MAP aliases; "SWAPALPHA" is
+# the default name of an instance of class SWAPALPHA): the routers compare with "SWAPalpha" / "ISWAP" only
+ALIASES = {"SWAPALPHA": "SWAPalpha", "iSWAP": "ISWAP"}
+ALIAS_KINDS = ["SWAPALPHA", "iSWAP"]
 
 
 # ------------------------------------------------------------------------------------------------
@@ -61,15 +67,54 @@ def generate(ctx):
 
 def _mk_circuit(inp):
     from qutip_qip.circuit import QubitCircuit
+    from qutip_qip.operations import Gate
+    from qutip_qip.operations.gateclass import GATE_CLASS_MAP
     qc = QubitCircuit(inp["N"], num_cbits=1)
-    for name, targets, controls, k in inp["gates"]:
+    for idx, (name, targets, controls, k) in enumerate(inp["gates"]):
         if name.startswith("M:"):   # a measurement: ["M:<name>", targets, [], classical_store]
             qc.add_measurement(name[2:], targets=list(targets), classical_store=k)
             continue
-        qc.add_gate(name, targets=(list(targets) if targets else None),
-                    controls=(list(controls) if controls else None),
-                    arg_value=(None if k is None else k / 8.0))
+        t = list(targets) if targets else None
+        c = list(controls) if controls else None
+        a = None if k is None else k / 8.0
+        form = inp.get("form", "name")
+        if form == "mixed":
+            form = ("name", "generic", "class")[(idx + len(inp["gates"])) % 3]
+        if form == "generic":      # a plain Gate object carrying the name (what the library's own passes emit)
+            qc.add_gate(Gate(name, targets=t, controls=c, arg_value=a))
+        elif form == "class" and name in GATE_CLASS_MAP:   # an instance of the dedicated gate class
+            kw = {}
+            if c is not None:
+                kw["controls"] = c
+            if a is not None:
+                kw["arg_value"] = a
+            qc.add_gate(GATE_CLASS_MAP[name](targets=t, **kw))
+        else:
+            qc.add_gate(name, targets=t, controls=c, arg_value=a)
     return qc
+
+
+PIPE_BASES = {"resolve": None, "resolve-csign": ["CSIGN", "RX", "RY", "RZ"], "resolve-iswap": ["ISWAP", "RX", "RY", "RZ"],
+              "resolve-sqrtswap": ["SQRTSWAP", "RX", "RY", "RZ"], "resolve-sqrtiswap": ["SQRTISWAP", "RX", "RY", "RZ"]}
+
+
+def prepare(inp):
+    """the circuit actually handed to the router and its description as the model sees it.
+    `form` selects how gates are constructed (by name / generic Gate object / class instance); `pipe` runs one
+    library pass first (resolve_gates in some basis, or adjacent_gates) and routes ITS output.
+    -> (effective input, circuit)   (raises when the input cannot be built)"""
+    qc = _mk_circuit(inp)
+    pipe = inp.get("pipe")
+    if pipe:
+        if pipe == "adj":
+            qc = qc.adjacent_gates()
+        else:
+            qc = qc.resolve_gates() if PIPE_BASES[pipe] is None else qc.resolve_gates(basis=PIPE_BASES[pipe])
+    if not pipe and "form" not in inp:
+        return inp, qc
+    eff = {k: v for k, v in inp.items() if k not in ("pipe", "form")}
+    eff["gates"] = _canon_gates(qc.gates)   # the names the objects really carry (SWAPALPHA(...) is named "SWAPALPHA")
+    return eff, qc
 
 
 def has_meas(inp):
@@ -85,7 +130,13 @@ def _canon_arg(a):
             return int(round(k))
     except Exception:
         pass
-    return "arg:" + repr(a)
+    # any other value (angles produced by resolve_gates, tuples): a deterministic integer token
+    import zlib
+    try:
+        r = repr(tuple(round(float(x), 9) for x in a)) if isinstance(a, (tuple, list)) else repr(round(float(a), 9))
+    except Exception:
+        r = repr(a)
+    return 1000000 + zlib.crc32(r.encode()) % 1000000
 
 
 def _canon_gates(gates):
@@ -103,11 +154,11 @@ def _canon_gates(gates):
     return out
 
 
-def run_impl(inp):
+def run_impl(inp, prepared=None):
     """-> ("ok", canonical gate list, circuit) or ("rejected", repr, None)"""
     from qutip_qip.transpiler.chain import to_chain_structure
     try:
-        qc = _mk_circuit(inp)
+        qc = (prepared or prepare(inp))[1]
     except Exception as e:  # the input itself cannot be built
         return ("unbuildable", repr(e), None)
     try:
@@ -151,11 +202,14 @@ def _ring_adjacent(setup, N, a, b):
     return setup == "circular" and {a, b} == {0, N - 1}
 
 
-def oracle(inp, status, out_gates, out_circ, dense_max):
-    """list of (what, observed, expected); empty = property holds on this input."""
+def oracle(inp, status, out_gates, out_circ, dense_max, in_circ=None):
+    """list of (what, observed, expected); empty = property holds on this input.
+    `inp` describes the circuit handed to the router (effective input); in_circ is that circuit when it cannot be
+    rebuilt from inp (pipelines)."""
     N = inp["N"]
     setup = "linear" if inp["fn"] == "adj" else inp["setup"]
     fails = []
+    alias_fails = []
     if status != "ok":
         return [("router raised %s instead of routing / passing the gates through" % out_gates, status, "a routed circuit")]
     # (iii) index range and adjacency of every gate kind the router produces
@@ -172,7 +226,7 @@ def oracle(inp, status, out_gates, out_circ, dense_max):
     if [[g[0], list(g[1] or []), list(g[2] or []), g[3]] for g in un_in] != un_out:
         fails.append(("passthrough: unhandled gates changed", un_out, un_in))
     if fails:
-        return fails
+        return fails + alias_fails
     # (ii) exact evaluation modulo SWAP relabelling
     fin = _frame([[g[0], list(g[1] or []), list(g[2] or []), g[3]] for g in inp["gates"]], N)
     fout = _frame(out_gates, N)
@@ -183,7 +237,7 @@ def oracle(inp, status, out_gates, out_circ, dense_max):
     # (i) dense unitaries
     if N <= dense_max and not has_meas(inp):   # a circuit with measurements has no unitary
         try:
-            u_in = _mk_circuit(inp).compute_unitary().full()
+            u_in = (in_circ if in_circ is not None else _mk_circuit(inp)).compute_unitary().full()
         except Exception:
             u_in = None   # the input itself has no unitary (not a routing failure)
         if u_in is not None:
@@ -194,7 +248,7 @@ def oracle(inp, status, out_gates, out_circ, dense_max):
                     fails.append(("unitary (dense): routed circuit differs from the input", "max abs diff %.3g" % err, "< 1e-9"))
             except Exception as e:
                 fails.append(("unitary (dense): routed circuit cannot be evaluated: " + type(e).__name__, repr(e)[:200], "a unitary"))
-    return fails
+    return fails + alias_fails
 
 
 def check_measurement(inp):
@@ -223,7 +277,7 @@ def check_measurement(inp):
 def _cgate(g):
     name, t, c, k = g
     zl = lambda l: "[" + "; ".join(str(int(x)) for x in (l or [])) + "]"
-    return '(mkGate "%s" %s %s %s)' % (name, zl(t), zl(c), "None" if k is None else "(Some %d)" % k)
+    return '(mkGate "%s" %s %s %s)' % (name, zl(t), zl(c), "None" if k is None else "(Some (%d))" % k)
 
 
 def _cexpr(inp):
@@ -282,7 +336,7 @@ def one_gate(kind, a, b):
     """gate of `kind` on the ordered pair (a, b): a = control / first target"""
     if kind in CTRL:
         return [kind, [b], [a], None]
-    return [kind, [a, b], [], 3 if kind == "SWAPalpha" else None]
+    return [kind, [a, b], [], 3 if kind in ("SWAPalpha", "SWAPALPHA") else None]
 
 
 def branch_of(inp):
@@ -427,7 +481,67 @@ def gen_inputs(ctx):
     for _ in range(ctx.n(300, 2500)):
         N = rng.choice([3, 4, 5, 5, 6, 6, 7, 8] if not ctx.thorough else [3, 4, 5, 6, 6, 7, 7, 8, 9, 10])
         fn, setup = rng.choice(FNS)
-        add({"fn": fn, "setup": setup, "N": N, "gates": random_reuse_circuit(rng, N)}, "reuse-random")
+        i = {"fn": fn, "setup": setup, "N": N, "gates": random_reuse_circuit(rng, N)}
+        f = rng.choice(["name", "generic", "class", "mixed"])
+        if f != "name":
+            i["form"] = f
+        add(i, "reuse-random")
+    # construction forms: the routers must recognise a routed gate however the object was built - by name
+    # (add_gate("CNOT", ...)), as a generic Gate("CNOT", ...) object (what resolve_gates / adjacent_gates / the
+    # decompose helpers emit) or as an instance of the dedicated class.  Same model output for every form.
+    for N in range(2, ctx.n(5, 7) + 1):
+        for a in range(N):
+            for b in range(N):
+                if a == b:
+                    continue
+                for kind in KINDS:
+                    for form in ("generic", "class"):
+                        for fn, setup in FNS:
+                            add({"fn": fn, "setup": setup, "N": N, "gates": [one_gate(kind, a, b)], "form": form}, "forms")
+    for N in ((6, 7, 8, 9) if not ctx.thorough else (8, 9, 10, 11, 12)):
+        far = [(a, b) for a in range(N) for b in range(N) if abs(a - b) >= 2]
+        for a, b in rng.sample(far, min(len(far), ctx.n(12, 40))):
+            for kind in KINDS:
+                fn, setup = FNS[(a + b + len(kind)) % 3]
+                add({"fn": fn, "setup": setup, "N": N, "gates": [one_gate(kind, a, b)],
+                     "form": ("generic", "class", "mixed")[(a + b) % 3]}, "forms")
+    # the other library names of two routed gates, all ordered pairs, by name and as generic Gate objects
+    for N in range(2, ctx.n(6, 8) + 1):
+        for a in range(N):
+            for b in range(N):
+                if a == b:
+                    continue
+                for kind in ALIAS_KINDS:
+                    for fn, setup in FNS:
+                        i = {"fn": fn, "setup": setup, "N": N, "gates": [one_gate(kind, a, b)]}
+                        if (a + b) % 2:
+                            i["form"] = "generic"
+                        add(i, "alias")
+    for N in (4, 5, 6):
+        for fn, setup in FNS:
+            add({"fn": fn, "setup": setup, "N": N,
+                 "gates": [["SWAPALPHA", [0, N - 1], [], 4], ["iSWAP", [N - 1, 1], [], None], ["SWAPalpha", [N - 1, 0], [], 4],
+                           one_gate("CNOT", 0, N - 1), ["iSWAP", [1, N - 1], [], None]]}, "alias")
+    # pipelines: the output of one library pass (generic Gate objects, arbitrary angles) is fed to the router
+    pipes = list(PIPE_BASES) + ["adj"]
+    for _ in range(ctx.n(250, 1500)):
+        N = rng.choice([3, 4, 4, 5, 5, 6] if not ctx.thorough else [3, 4, 5, 5, 6, 6, 7])
+        gates = []
+        for _g in range(rng.randrange(1, 5)):
+            r = rng.random()
+            if r < 0.35 and N >= 3:
+                a, b, c = rng.sample(range(N), 3)
+                gates.append(["TOFFOLI", [c], [a, b], None] if rng.random() < 0.6 else ["FREDKIN", [b, c], [a], None])
+            elif r < 0.85:
+                a, b = rng.sample(range(N), 2)
+                gates.append(one_gate(rng.choice(["CNOT", "CNOT", "CSIGN", "SWAP", "ISWAP", "SQRTSWAP", "SQRTISWAP", "BERKELEY"]), a, b))
+            else:
+                gates.append([rng.choice(["SNOT", "X"]), [rng.randrange(N)], [], None])
+        pipe = rng.choice(pipes)
+        if pipe == "adj":
+            gates = [g for g in gates if g[0] in HANDLED] or [one_gate("CNOT", 0, N - 1)]
+        fn, setup = rng.choice((("tcs", "linear"), ("tcs", "circular"), ("tcs", "circular"), ("adj", "linear")))
+        add({"fn": fn, "setup": setup, "N": N, "gates": gates, "pipe": pipe}, "pipeline")
     # random multi-gate circuits with pass-through gates
     for _ in range(ctx.n(500, 4000)):
         N = rng.choice([2, 3, 4, 5, 5, 6, 6, 7, 8, 9, 10, 11, 12] if ctx.thorough else [2, 3, 4, 5, 5, 6, 6, 7, 8, 9, 10])
@@ -473,35 +587,50 @@ def correspond(ctx):
     gen = gen_inputs(ctx)
     inputs = [i for i, _ in gen]
     dense_max = ctx.n(6, 7)
-    impl = [run_impl(i) for i in inputs]
-    model = run_model(inputs, "q" if not ctx.thorough else "t")
+    prepared = []
+    for i in inputs:
+        try:
+            prepared.append(prepare(i))
+        except Exception:
+            prepared.append(None)
+    impl = [run_impl(i, p) if p is not None else ("unbuildable", "prepare failed", None) for i, p in zip(inputs, prepared)]
+    # the model sees only (name, targets, controls, arg) of the circuit handed to the router: the same for every
+    # construction form; for a pipeline it is the output of the first pass
+    effs = [(p[0] if p is not None else {k: v for k, v in i.items() if k not in ("pipe", "form")})
+            for i, p in zip(inputs, prepared)]
+    model = run_model(effs, "q" if not ctx.thorough else "t")
     ndense = 0
-    for (inp, kind), (st, out, circ), (mst, mout) in zip(gen, impl, model):
+    for (orig_inp, kind), eff, prep, (st, out, circ), (mst, mout) in zip(gen, effs, prepared, impl, model):
+        inp = eff
+        if "form" in orig_inp or "pipe" in orig_inp:
+            corr.tally("construction:" + orig_inp.get("form", "name") + ("+" + orig_inp["pipe"] if "pipe" in orig_inp else ""))
         tags = branch_of(inp)
         for t in set(tags):
             corr.tally(kind + ":" + inp["fn"] + ":" + (inp["setup"] if inp["fn"] == "tcs" else "-") + ":" + t)
         nontriv = any(t.startswith("backward") or (t.startswith("forward") and not t.endswith("adjacent")) for t in tags)
-        corr.count(json.dumps(inp, sort_keys=True), nontrivial=nontriv, sample=inp)
+        corr.count(json.dumps(orig_inp, sort_keys=True), nontrivial=nontriv, sample=orig_inp)
         if st == "unbuildable":
+            corr.tally("unbuildable")
             continue
         # model vs implementation: exact gate lists
         if st == "ok":
             if mst != "ok" or mout != out:
-                corr.disagree(inp, out, mout if mst == "ok" else "model: rejected", "routed gate list differs from model")
+                corr.disagree(orig_inp, out, mout if mst == "ok" else "model: rejected", "routed gate list differs from model")
         else:
             if mst == "ok":
-                corr.disagree(inp, "rejected: " + str(out), mout, "implementation raised, model routes")
+                corr.disagree(orig_inp, "rejected: " + str(out), mout, "implementation raised, model routes")
         # property oracle on the implementation's output
         if in_scope(inp):
             if inp["N"] <= dense_max:
                 ndense += 1
-            for what, obs, exp in oracle(inp, st, out, circ, dense_max):
-                corr.oracle_fail(inp, obs, exp, what)
+            for what, obs, exp in oracle(inp, st, out, circ, dense_max, in_circ=prep[1]):
+                corr.oracle_fail(orig_inp, obs, exp, what)
     # observation points LinearSpinChain / CircularSpinChain / SCQubits .topology_map are the same router
     ndev = 0
     devs = {}
     for idx, ((inp, kind), (st, out, circ)) in enumerate(zip(gen, impl)):
-        if inp["fn"] != "tcs" or st != "ok" or inp["N"] > 7 or inp["N"] < 2 or (kind == "single" and idx % 23):
+        if inp["fn"] != "tcs" or st != "ok" or inp["N"] > 7 or inp["N"] < 2 or (kind in ("single", "forms") and idx % 23) \
+                or "pipe" in inp:
             continue
         try:
             from qutip_qip.device import LinearSpinChain, CircularSpinChain, SCQubits
@@ -551,6 +680,9 @@ def classify(failure):
     inp = failure.get("input") or {}
     what = failure.get("what", "")
     gates = inp.get("gates") or []
+    if any(g[0] in ALIASES or (g[0] == "SWAPalpha" and inp.get("form") in ("class", "mixed")) for g in gates) and \
+            (what.startswith("adjacency") or what.startswith("passthrough") or "cannot be evaluated" in what):
+        return "alias-name-not-routed"
     if inp.get("measurement") or (inp.get("fn") == "tcs" and any(g[0].startswith("M:") for g in gates)
                                   and what.startswith("passthrough")):
         return "tcs-measurement-wrapped"
@@ -571,10 +703,14 @@ def classify(failure):
 def _fails(inp, dense_max=6):
     if inp.get("measurement"):
         return check_measurement(inp)
-    st, out, circ = run_impl(inp)
-    if st == "unbuildable":
+    try:
+        prep = prepare(inp)
+    except Exception:
         return []
-    return oracle(inp, st, out, circ, dense_max)
+    st, out, circ = run_impl(inp, prep)
+    if st == "unbuildable" or not in_scope(prep[0]):
+        return []
+    return oracle(prep[0], st, out, circ, dense_max, in_circ=prep[1])
 
 
 def replay(ctx, rec):
